@@ -12,7 +12,7 @@ from __future__ import annotations
 import ast
 from fractions import Fraction
 
-from ..gen import EXTRA, REPO, Kernel, Untranslatable, assign_value, register
+from ..gen import EXTRA, REPO, Kernel, Untranslatable, assign_value, find_assign, register
 from ..pyexpr import ExprTr, emit_def, find_function, parse_file
 
 CK = "direct/checkpointer.py"
@@ -313,10 +313,239 @@ def _sched_extra():
     return "\n".join(chunks), status
 
 
+# --------------------------------------------------------------------------------------------------
+# the code around the core: load aliases, Engine.train's initialization chain, validation tail, API facts, milestones
+T = "direct/train.py"
+
+
+def _latest_aliases(fn: ast.FunctionDef) -> str:
+    """the tuple of `if iteration in ("latest", -1):` as `List (Option Int)` (`none` = the string "latest")"""
+    for st in ast.walk(fn):
+        if isinstance(st, ast.If) and isinstance(st.test, ast.Compare) and ast.unparse(st.test.left) == "iteration" \
+                and len(st.test.ops) == 1 and "last_model" in ast.unparse(st):
+            op, rhs = st.test.ops[0], st.test.comparators[0]
+            if isinstance(op, ast.In) and isinstance(rhs, (ast.Tuple, ast.List, ast.Set)):
+                elts = rhs.elts
+            elif isinstance(op, ast.Eq):
+                elts = [rhs]
+            else:
+                raise Untranslatable(f"test `{ast.unparse(st.test)}`")
+            out = []
+            for e in elts:
+                if isinstance(e, ast.Constant) and e.value == "latest":
+                    out.append("none")
+                else:
+                    try:
+                        v = ast.literal_eval(e)
+                    except Exception:  # noqa: BLE001
+                        raise Untranslatable(f"alias `{ast.unparse(e)}`")
+                    if isinstance(v, bool) or not isinstance(v, int):
+                        raise Untranslatable(f"alias `{ast.unparse(e)}`")
+                    out.append(f"some ({v})")
+            return "[" + ", ".join(out) + "]"
+    raise Untranslatable("the `iteration in (…)` test guarding the read of last_model.txt was not found")
+
+
+def init_chain(fn: ast.FunctionDef) -> list[tuple[str, bool, list[str]]]:
+    """the `if … elif …` statements of Engine.train that mention `initialization`:
+    [(condition constructor, is an elif of the previous one, [actions])]"""
+    rows: list[tuple[str, bool, list[str]]] = []
+
+    def cond(test: ast.AST) -> str:
+        t = ast.unparse(test).replace(" ", "")
+        if t in ("start_iter>0andinitialization", "initializationandstart_iter>0"):
+            return ".resumedAndInit"
+        if t in ("initialization", "initializationisnotNone"):
+            return ".init"
+        raise Untranslatable(f"initialization test `{ast.unparse(test)}`")
+
+    def acts(body: list[ast.stmt]) -> list[str]:
+        out = []
+        for st in body:
+            for n in ast.walk(st):
+                if isinstance(n, ast.Call):
+                    f = ast.unparse(n.func)
+                    if f.endswith(".load_models_from_file"):
+                        out.append(".loadModels")
+                    elif f.endswith(".load_from_path"):
+                        om = next((k.value for k in n.keywords if k.arg == "only_models"), None)
+                        out.append(".loadModels" if isinstance(om, ast.Constant) and om.value is True else ".loadFull")
+                    elif f.endswith("checkpointer.load"):
+                        out.append(".loadFull")
+                if isinstance(n, ast.Assign) and ast.unparse(n.targets[0]) == "start_with_validation":
+                    if not (isinstance(n.value, ast.Constant) and n.value.value is True):
+                        raise Untranslatable(f"`{ast.unparse(n)}`")
+                    out.append(".swvTrue")
+                if isinstance(n, (ast.Assign, ast.AugAssign)) and ast.unparse(getattr(n, "targets", [getattr(n, "target", None)])[0]) \
+                        in ("start_iter",):
+                    raise Untranslatable("start_iter assigned inside the initialization chain")
+        return out
+
+    def visit(st: ast.If, chained: bool):
+        rows.append((cond(st.test), chained, acts(st.body)))
+        if len(st.orelse) == 1 and isinstance(st.orelse[0], ast.If):
+            visit(st.orelse[0], True)
+        elif st.orelse:
+            if "initialization" in ast.unparse(ast.Module(body=st.orelse, type_ignores=[])):
+                raise Untranslatable("`else` branch of the initialization chain mentions initialization")
+
+    for st in fn.body:
+        if isinstance(st, ast.If) and "initialization" in ast.unparse(st.test):
+            visit(st, False)
+        elif not isinstance(st, ast.If) and "initialization" in ast.unparse(st) and not isinstance(st, ast.Expr):
+            raise Untranslatable(f"`initialization` used outside the chain: `{ast.unparse(st).splitlines()[0]}`")
+    if not rows:
+        raise Untranslatable("no initialization chain in Engine.train")
+    return rows
+
+
+def _val_tail(fn: ast.FunctionDef) -> str:
+    """what `validation_loop` does to the training-mode flags after the loop over the validation datasets"""
+    tail = None
+    for st in fn.body:
+        for n in ast.walk(st):
+            if isinstance(n, ast.Call):
+                f = ast.unparse(n.func)
+                if f == "self.models_training_mode":
+                    tail = ".allModels"
+                elif f == "self.model.train":
+                    tail = ".mainOnly" if tail != ".allModels" else tail
+    last = fn.body[-1]
+    if tail is not None and not (isinstance(last, ast.Expr) and isinstance(last.value, ast.Call)
+                                 and ast.unparse(last.value.func) in ("self.models_training_mode", "self.model.train")):
+        raise Untranslatable("the training-mode call is not the last statement of validation_loop")
+    return tail or ".nothing"
+
+
+def _kw_names(call: ast.Call) -> list[str]:
+    return [k.arg for k in call.keywords if k.arg is not None]
+
+
+def _checkpointer_call(fn: ast.FunctionDef) -> ast.Call:
+    for n in ast.walk(fn):
+        if isinstance(n, ast.Call) and ast.unparse(n.func) == "Checkpointer":
+            return n
+    raise Untranslatable("no Checkpointer(…) call")
+
+
+def _api_facts() -> str:
+    ck = parse_file(REPO / CK)
+    en = parse_file(REPO / E)
+    init = find_function(ck, "Checkpointer.__init__")
+    src_init = [ast.unparse(st).replace(" ", "") for st in init.body]
+    unwrap_main = any(t == "self.model=self._remove_module_attribute(model)" for t in src_init)
+    unwrap_regex = False
+    for st in init.body:
+        if isinstance(st, ast.For) and "checkpointables" in ast.unparse(st.iter):
+            for n in ast.walk(st):
+                if isinstance(n, ast.If) and "re.match" in ast.unparse(n.test) and "model_regex" in ast.unparse(n.test) \
+                        and any("_remove_module_attribute(checkpointables[key])" in ast.unparse(b).replace(" ", "") and
+                                ast.unparse(b).replace(" ", "").startswith("checkpointables[key]=") for b in n.body):
+                    unwrap_regex = True
+    save = find_function(ck, "Checkpointer.save")
+    body = [st for st in save.body if not (isinstance(st, ast.Expr) and isinstance(st.value, ast.Constant))]
+    first = body[0] if body else None
+    save_guarded = (isinstance(first, ast.If) and ast.unparse(first.test) == "not self.save_to_disk"
+                    and len(first.body) == 1 and isinstance(first.body[0], ast.Return) and not first.orelse)
+    tc = _checkpointer_call(find_function(en, "Engine.train"))
+    std = next((ast.unparse(k.value).replace(" ", "") for k in tc.keywords if k.arg == "save_to_disk"), None)
+    main_only = std in ("communication.is_main_process()", "Falseifnotcommunication.is_main_process()elseTrue",
+                        "Trueifcommunication.is_main_process()elseFalse", "bool(communication.is_main_process())")
+    pc = _checkpointer_call(find_function(en, "Engine.predict"))
+    pstd = next((k.value for k in pc.keywords if k.arg == "save_to_disk"), None)
+    predict_never = isinstance(pstd, ast.Constant) and pstd.value is False
+    lists = False
+    for name in ("Checkpointer.load", "Checkpointer.load_from_path", "Checkpointer._load_checkpoint"):
+        for n in ast.walk(find_function(ck, name)):
+            if isinstance(n, ast.Call):
+                f = ast.unparse(n.func)
+                if f.split(".")[-1] in ("glob", "rglob", "iglob", "iterdir", "listdir", "scandir", "walk"):
+                    lists = True
+    lm = find_function(ck, "Checkpointer._load_model")
+    missing_raise = any(isinstance(n, ast.If) and ast.unparse(n.test) == "incompatible.missing_keys"
+                        and any(isinstance(b, ast.Raise) for b in n.body) for n in ast.walk(lm))
+    mf = find_function(ck, "Checkpointer.load_models_from_file")
+    only_models = False
+    for n in ast.walk(mf):
+        if isinstance(n, ast.Call) and ast.unparse(n.func) == "self.load_from_path":
+            om = next((k.value for k in n.keywords if k.arg == "only_models"), None)
+            only_models = isinstance(om, ast.Constant) and om.value is True
+    b = lambda v: "true" if v else "false"  # noqa: E731
+    names = ", ".join('"' + k + '"' for k in _kw_names(tc) if not k.startswith("__"))
+    return (f"{{ ctorUnwrapsMain := {b(unwrap_main)}, ctorUnwrapsRegexKeys := {b(unwrap_regex)}, saveGuarded := {b(save_guarded)}, "
+            f"trainWritesOnMainOnly := {b(main_only)}, predictNeverWrites := {b(predict_never)}, "
+            f"loadListsDirectory := {b(lists)}, missingKeysRaise := {b(missing_raise)}, "
+            f"modelsFromFileOnlyModels := {b(only_models)}, trainCheckpointables := [{names}] }}")
+
+
+def _solver_steps(fn: ast.FunctionDef) -> str:
+    st = find_assign(fn, "solver_steps")
+    v = st.value
+    if isinstance(v, ast.Call) and ast.unparse(v.func) == "list" and len(v.args) == 1:
+        v = v.args[0]
+    if not (isinstance(v, ast.Call) and ast.unparse(v.func) == "range" and len(v.args) == 3 and not v.keywords):
+        raise Untranslatable(f"solver_steps = `{ast.unparse(st.value)}`")
+    tr = ExprTr({"env.cfg.training.lr_step_size": "lr_step_size", "env.cfg.training.num_iterations": "num_iterations"})
+    a, b_, c = (tr.int(x) for x in v.args)
+    return f"C15E.pyRange {a} {b_} {c}"
+
+
+def engine_facts() -> dict[str, str]:
+    """Lean terms of the structural facts, or the reason they could not be read (`!…`)"""
+    out: dict[str, str] = {}
+
+    def attempt(name, thunk):
+        try:
+            out[name] = thunk()
+        except Untranslatable as e:
+            out[name] = "!" + str(e)
+
+    attempt("latestAliases", lambda: _latest_aliases(find_function(parse_file(REPO / CK), "Checkpointer.load")))
+    attempt("initTable", lambda: "[" + ", ".join(
+        f"⟨{c}, {'true' if ch else 'false'}, [{', '.join(a)}]⟩"
+        for c, ch, a in init_chain(find_function(parse_file(REPO / E), "Engine.train"))) + "]")
+    attempt("valTail", lambda: _val_tail(find_function(parse_file(REPO / E), "Engine.validation_loop")))
+    attempt("apiFacts", _api_facts)
+    attempt("solver_steps", lambda: _solver_steps(find_function(parse_file(REPO / T), "setup_train")))
+    return out
+
+
+_FACT_TYPES = {
+    "latestAliases": ("List (Option Int)", "C15E.latestAliases", CK + "`:`Checkpointer.load"),
+    "initTable": ("List C15E.InitBranch", "C15E.initTable", E + "`:`Engine.train"),
+    "valTail": ("C15E.ValTail", "C15E.valTail", E + "`:`Engine.validation_loop"),
+    "apiFacts": ("C15E.ApiFacts", "C15E.apiFacts", CK + "` / `" + E),
+}
+
+
+def _engine_extra():
+    facts = engine_facts()
+    chunks, status = [], {}
+    for name, (ty, fallback, where) in _FACT_TYPES.items():
+        v = facts[name]
+        if v.startswith("!"):
+            chunks.append(f"/-- SKIPPED ({v[1:]}); stands for the hand-written model -/\ndef {name} : {ty} := {fallback}\n")
+            status[name] = "skipped: " + v[1:]
+        else:
+            chunks.append(f"/-- read from `{where}` -/\ndef {name} : {ty} := {v}\n")
+            status[name] = "translated"
+    v = facts["solver_steps"]
+    if v.startswith("!"):
+        chunks.append(f"/-- SKIPPED ({v[1:]}); stands for the hand-written model -/\n"
+                      "def solver_steps (lr_step_size num_iterations : Int) : List Int := C15E.solverSteps lr_step_size num_iterations\n")
+        status["solver_steps"] = "skipped: " + v[1:]
+    else:
+        chunks.append(f"/-- translated from `{T}`:`setup_train` (the milestones handed to WarmupMultiStepLR) -/\n"
+                      f"def solver_steps (lr_step_size num_iterations : Int) : List Int := {v}\n")
+        status["solver_steps"] = "translated"
+    return "\n".join(chunks), status
+
+
 def _c15_extra():
     t1, s1 = _save_extra()
     t2, s2 = _sched_extra()
-    return t1 + "\n" + t2, {**s1, **s2}
+    t3, s3 = _engine_extra()
+    return t1 + "\n" + t2 + "\n" + t3, {**s1, **s2, **s3}
 
 
 EXTRA["C15"] = _c15_extra
@@ -324,7 +553,7 @@ EXTRA["C15"] = _c15_extra
 
 # --------------------------------------------------------------------------------------------------
 # integer kernels of engine.py
-def _save_call(fn: ast.FunctionDef):
+def _save_call(fn: ast.FunctionDef, callee: str = "self.checkpointer.save", nargs: int = 1):
     """(call `self.checkpointer.save(arg)`, enclosing if-tests)"""
     found = []
 
@@ -335,11 +564,11 @@ def _save_call(fn: ast.FunctionDef):
                 walk(st.orelse, tests)
             else:
                 for c in ast.walk(st):
-                    if isinstance(c, ast.Call) and ast.unparse(c.func) == "self.checkpointer.save":
+                    if isinstance(c, ast.Call) and ast.unparse(c.func) == callee:
                         found.append((c, tests))
     walk(fn.body, [])
-    if len(found) != 1 or len(found[0][0].args) != 1:
-        raise Untranslatable("expected exactly one `self.checkpointer.save(<label>)`")
+    if len(found) != 1 or len(found[0][0].args) != nargs:
+        raise Untranslatable(f"expected exactly one `{callee}(…)` with {nargs} argument(s)")
     return found[0]
 
 
@@ -350,6 +579,16 @@ _B = {"iter_idx": "iter_idx", "total_iter": "total_iter",
 def _save_label(k: Kernel, fn: ast.FunctionDef) -> str:
     c, _ = _save_call(fn)
     return emit_def(k.name, k.params, [], ExprTr(_B).int(c.args[0]), "Int")
+
+
+def _call_guard(callee: str, nargs: int, binds: dict[str, str]):
+    def build(k: Kernel, fn: ast.FunctionDef) -> str:
+        c, tests = _save_call(fn, callee, nargs)
+        if nargs == 1 and ast.unparse(c.args[0]) != "iter_idx":
+            raise Untranslatable(f"`{ast.unparse(c)}` is not called with iter_idx")
+        tr = ExprTr(binds)
+        return emit_def(k.name, k.params, [], "(" + " && ".join(tr.bool(t) for t in tests) + ")" if tests else "true", "Bool")
+    return build
 
 
 def _save_guard(k: Kernel, fn: ast.FunctionDef) -> str:
@@ -369,4 +608,12 @@ register("C15", [
     Kernel("ckpt_label", E, "Engine.checkpoint_model_at_interval", ["iter_idx"], "(fun i => i)", _save_label, imports=TRAIN),
     Kernel("ckpt_guard", E, "Engine.checkpoint_model_at_interval", ["iter_idx", "ck_steps", "total_iter"],
            "(fun i c t => decide (i ≥ 5) && (Int.fmod i c == 0 || i + 1 == t))", _save_guard, ret_type="Bool", imports=TRAIN),
+    Kernel("val_guard", E, "Engine.validate_model_at_interval", ["iter_idx", "val_steps", "total_iter"],
+           "(fun i c t => decide (i ≥ 5) && (Int.fmod i c == 0 || i + 1 == t))",
+           _call_guard("func", 1, {**_B, "self.cfg.training.validation_steps": "val_steps"}), ret_type="Bool",
+           imports=("DirectVerif.Model.C15Engine",)),
+    Kernel("log_guard", E, "Engine.write_to_logs_at_interval", ["iter_idx", "val_steps", "total_iter"],
+           "(fun i c t => decide (i ≥ 5) && (Int.fmod i 20 == 0 || Int.fmod i c == 0 || i + 1 == t))",
+           _call_guard("self.write_to_logs", 0, {**_B, "self.cfg.training.validation_steps": "val_steps"}), ret_type="Bool",
+           imports=("DirectVerif.Model.C15Engine",)),
 ])
